@@ -528,16 +528,22 @@ def exp1(ctx, c):
                          for p_ in preds}
                 hooks[("*", "ascii")] = lambda r, a: r.attrs.get("name")
                 hooks[("self", "get_symbol")] = lambda a: table.get(a[0], _D("get_symbol(%r)" % (a[0],))) if a and isinstance(a[0], str) and not isinstance(a[0], _D) else _D("get_symbol(?)")
+                hooks[("cls", "get_symbol")] = hooks[("self", "get_symbol")]
+                hooks[("ExpressionValue", "get_symbol")] = hooks[("self", "get_symbol")]
+                hooks[("Value", "get_symbol")] = hooks[("self", "get_symbol")]
                 envx = dict(ctx.env)
                 for cn in ("NumericValue", "ExtendedNumericValue", "DirectNumericValue", "AddressValue"):
                     envx[cn] = _C(cn)
                 envx.update({"self.left": lo_, "self.right": ro_, "self.operation": opch, "self.original_value": "L%sR" % opch, "self.resolved": False})
                 evs, nts = [], []
-                end = _run(body_without_doc(flat_res), envx, evs, nts, hooks=hooks)
+                def _res_exp(name_):
+                    f_ = repo.lookup(repo.cls("ExpressionValue"), name_)
+                    return f_.node if f_ is not None and name_ != "get_symbol" else None
+                end = _run(body_without_doc(flat_res), envx, evs, nts, hooks=hooks, workers=("get_symbol",), resolver=_res_exp)
                 evaluated += 1
                 ev_notes += nts
                 want = pyop(lv, rv)
-                looked = [e[4][0] for e in evs if e[0] == "call" and e[2] == "get_symbol" and e[4]]
+                looked = [e[4][0] for e in evs if e[0] == "call" and e[2] == "get_symbol" and e[4] and e[1] in ("self", "cls", "ExpressionValue", "Value")]
                 want_looked = (["L"] if lk == "symbol" else []) + (["R"] if rk == "symbol" else [])
                 site_cfg = "%s %s %s" % (lk, opch, rk)
                 if looked != want_looked:
@@ -552,6 +558,9 @@ def exp1(ctx, c):
                     continue
                 a0 = res.args[0]
                 got = int(a0) if isinstance(a0, str) and not isinstance(a0, _D) and a0.lstrip("-").isdigit() else (a0 if isinstance(a0, int) else None)
+                if got is None:
+                    ev_notes.append("the result of %s is built from %s, which was not evaluated" % (site_cfg, _show(a0)[:50]))
+                    continue
                 if got != want:
                     ev_problems.append(("value:%s" % opch, "%d %s %d gives %s (expected %d)" % (lv, opch, rv, _show(a0), want)))
                 hint = res.attrs.get("size_hint")
@@ -575,6 +584,8 @@ def exp1(ctx, c):
         outs = Interp(fn.node).run()
         both = [o for o in outs if "self.left.is_symbol()" in o.path.true_atoms()]
         tested_right = [o for o in both if any(strip_ver(a).startswith("self.right.is_symbol()") for a, _ in o.path.conds)]
+        if not both:
+            raise PathCap("no path with a symbol on the left was recognised")
         c.check(bool(both) and len(both) == len(tested_right), "ExpressionValue.resolve:lookups", "left and right are looked up independently",
                 "%d of %d paths with a symbol on the left never look at the right operand" % (len(both) - len(tested_right), len(both)),
                 "when the left operand is a symbol, ExpressionValue.resolve does not look up a symbol on the right (label+CONST is computed with CONST unresolved)", where)
@@ -583,6 +594,9 @@ def exp1(ctx, c):
             for n in ast.walk(fn.node):
                 if isinstance(n, ast.Assign) and U(n.targets[0]) == "self.%s" % side and isinstance(n.value, ast.Call) and U(n.value.func) == "self.get_symbol":
                     srcs.add(U(n.value.args[0]))
+            if not srcs:
+                c.undecided("ExpressionValue.resolve:lookup-%s" % side, "look-up-not-recognised", "", where)
+                continue
             c.check(srcs == {"self.%s.ascii()" % side}, "ExpressionValue.resolve:lookup-%s" % side, "looked up by its own name", "looked up by %s" % sorted(srcs),
                     "the %s operand is replaced by the symbol named %s" % (side, sorted(srcs)), where)
     except PathCap as e:
@@ -704,19 +718,31 @@ def dir1(ctx, c):
     c.floor("pseudo rows", len(pseudo), 8)
     fn = repo.method("PseudoOperand", "translate", inherited=False)
     where = repo.loc(fn, fn.node)
-    outs = Interp(fn.node, consts=ctx.env, alias_paths=True).run()
+    # one interpretation per pseudo mnemonic (the mnemonic bound to a constant): an if-chain, a membership test, a lookup table or a helper all evaluate to the same arms
+    from .enc import make_resolver as _mkres
     arms = {}
     default = None
-    for o in outs:
-        if o.kind != "return":
-            continue
-        names = [re.search(r"== '(\w+)'", a).group(1) for a, t in o.path.conds if t and re.search(r"mnemonic == '(\w+)'", a)]
-        if names:
-            arms.setdefault(names[0], []).append(o)
-        else:
-            default = o
+    arms_open = None
+    for r_ in pseudo + [None]:
+        m_ = r_.mnemonic if r_ is not None else "?NOSUCH"
+        try:
+            outs_m = Interp(fn.node, consts={**ctx.env, **ctx.self_env("PseudoOperand")}, alias_paths=True, resolver=_mkres(repo, fn),
+                            init_env={"self.instruction.mnemonic": Const(m_)}).run()
+        except PathCap as e_:
+            arms_open = str(e_)
+            break
+        rets_m = [o for o in outs_m if o.kind == "return"]
+        if r_ is None:
+            default = rets_m[0] if rets_m else None
+        elif rets_m:
+            arms[m_] = rets_m
+    emitting = lambda o: isinstance(o.value, Ctor) and (any(k in o.value.kw for k in ("op_code", "post_byte", "additional")) or "size" in o.value.kw)
+    arms = {m_: os_ for m_, os_ in arms.items() if m_ not in ("FCB", "FDB", "FCC", "RMB") or any(emitting(o) for o in os_)}
     emitters = {"FCB", "FDB", "FCC", "RMB"}
-    for r in pseudo:
+    if arms_open:
+        c.undecided("PseudoOperand.translate", "arms-not-evaluable", arms_open[:120], where)
+        arms = {}
+    for r in (pseudo if not arms_open else []):
         m = r.mnemonic
         site = "PseudoOperand.translate:%s" % m
         if m in emitters:
@@ -732,7 +758,7 @@ def dir1(ctx, c):
                 c.check(kw == {}, site, "falls to the empty CodePackage", "default arm returns %r" % (default.value if default else None),
                         "%s falls to a default arm that is not an empty CodePackage" % m, where)
     # the empty CodePackage occupies no space: defaults size = 0 and max_size >= size (PC-relative estimates sum max_size over every statement)
-    cp = repo.method("CodePackage", "__init__", inherited=False)
+    cp = repo.method("CodePackage", "__init__")
     a_ = cp.node.args
     names = [x.arg for x in a_.args]
     dmap = dict(zip(names[len(names) - len(a_.defaults):], a_.defaults))
@@ -778,7 +804,7 @@ def dir1(ctx, c):
         c.check(good, "PseudoOperand.translate:FCC", "size = byte_len() of the string emitted", "size=%r additional=%r" % (kw.get("size"), kw.get("additional")),
                 "FCC: size must be the byte length of the string emitted", where)
     # the operand text of a data directive reaches the value classes as written: a case change alters character literals ('a -> 'A)
-    pi = repo.method("PseudoOperand", "__init__", inherited=False)
+    pi = repo.method("PseudoOperand", "__init__")
     opname = [p_ for p_ in pi.params if p_ != "self"][0]
     casey = {}
     for n_ in ast.walk(pi.node):
@@ -799,8 +825,10 @@ def dir1(ctx, c):
                 break
     # list element widths
     for cls, w in (("MultiByteValue", 2), ("MultiWordValue", 4)):
-        f = repo.method(cls, "__init__", inherited=False)
-        sizes = [try_fold(k.value) for n in ast.walk(f.node) if isinstance(n, ast.Call) and U(n.func).endswith(".hex") for k in n.keywords if k.arg == "size"]
+        f = repo.method(cls, "__init__")
+        envc = {**ctx.env, **ctx.self_env(cls)}
+        sizes = [try_fold(k.value, envc) for n in ast.walk(f.node) if isinstance(n, ast.Call) and U(n.func).endswith(".hex") for k in n.keywords if k.arg == "size"]
+        sizes = [x for x in sizes if x is not None] if all(x is not None for x in sizes) else []
         if not sizes:
             # the width may be passed to a shared base class / helper: super().__init__(value, unit) or self.parse_list(value, 2)
             for n in ast.walk(f.node):
@@ -835,7 +863,7 @@ def dir1(ctx, c):
     from ..consteval import Raised as _Rl, NotConst as _Nl
 
     def _objcall(cls_, args_, kw_, meth_, margs_, mkw_):
-        init_ = repo.method(cls_, "__init__", inherited=False)
+        init_ = repo.method(cls_, "__init__")
         a_ = dict(zip([p_ for p_ in init_.params if p_ != "self"], args_))
         a_.update(kw_)
         st_ = _fcl(ctx, cls_, a_)
@@ -846,7 +874,7 @@ def dir1(ctx, c):
         return _fml(ctx, cls_, meth_, {k_: v_ for k_, v_ in st_.items() if k_.startswith("self.")}, margs_, mkw_)
     value_classes = {cn_ for cn_ in repo.classes if cn_.endswith("NumericValue") or cn_ in ("AddressValue",)}
     for cls, w in (("MultiByteValue", 2), ("MultiWordValue", 4)):
-        f = repo.method(cls, "__init__", inherited=False)
+        f = repo.method(cls, "__init__")
         bad_, und_ = None, None
         samples = [("1,2,3", [1, 2, 3]), ("1,-1", [1, -1]), ("-128,127", [-128, 127]), ("$7F,$0A", [0x7F, 0x0A]), ("0,255", [0, 255]),
                    ("34,'',0", [34, 0x27, 0]), ("'A,'.,'?", [0x41, 0x2E, 0x3F]), ("%00000101,$5", [5, 5])]
@@ -871,7 +899,7 @@ def dir1(ctx, c):
                       "%s(%r) holds %s; the directive emits %s (one element per value, negatives as two's complement at %d hex digits)" % (cls, bad_[0], bad_[1], bad_[2], w), repo.loc(f, f.node))
         else:
             c.ok("%s:elements" % cls, "folded for %d sample lists" % len(samples), repo.loc(f, f.node))
-    sv = repo.method("StringValue", "__init__", inherited=False)
+    sv = repo.method("StringValue", "__init__")
     t = U(sv.node)
     good = "value[-1] != value[0]" in t and "value[1:-1]" in t and "ord(x)" in t
     # decided by folding the constructor for sample strings: one byte per character between the delimiters, blanks included
@@ -1008,7 +1036,7 @@ def dir1(ctx, c):
             c.ok("PseudoOperand.resolve_symbols", "resolves", repo.loc(rs, rs.node))
     # EQU width tagging by spelling: PseudoOperand.__init__ evaluated for one constant (16) written six ways; which value class the EQU ends up
     # holding is the width tag that ExpressionValue.resolve later propagates
-    init = repo.method("PseudoOperand", "__init__", inherited=False)
+    init = repo.method("PseudoOperand", "__init__")
     from ..concrete import Obj as _O2, ClsRef as _C2, Desc as _D2, run_concrete as _run2
     from .wid import fold_constructor as _fc, fold_method as _fm
     from ..consteval import Raised as _Rz, NotConst as _Nz
